@@ -132,12 +132,13 @@ def parseApp (s : String) : Option App :=
     let walk ← (if ws = "" then some [] else (splitC ws ';').mapM parseItem)
     let ents ← (if ts = "" then some [] else (splitC ts ';').mapM parseTreeEnt)
     let tree := (buildTree (2 * ents.length + 2) 0 ents).1
-    pure { name := name.toList, params := params, walk := walk, apropos := aproposTree tree }
+    pure { name := name.toList, params := params, walk := walk, apropos := scanLookup tree }
   | _ => none
 
 def parseHist (s : String) : Option (List (Path × List Val)) :=
   if s = "-" then some [] else
   (splitC s ';').mapM fun m => match splitC m '~' with
+    | [a, "-", ""] => some (a.toList, [])                       -- a message without arguments
     | [a, t, p] => (parseVal (t ++ p)).map fun v => (a.toList, [v])
     | _ => none
 
@@ -182,13 +183,34 @@ def normLine (app : App) (l : Line) : Line :=
   | .plain vs => ⟨l.addr, .plain (vs.map (normVal app l.addr))⟩
   | .arr _ => l
 
+/-- an array line shown with all elements of the array: the elements the file leaves out (they equal the
+    default) are taken from the saved state — the property does not say how much of an array a line spells out -/
+def padLine (app : App) (s : State) (l : Line) : Line :=
+  match l.args with
+  | .plain _ => l
+  | .arr vs =>
+    match app.walk.findSome? (fun it => match it with
+        | .array base first len => if base = l.addr then some (first, len) else none
+        | _ => none) with
+    | none => l
+    | some (first, len) =>
+      ⟨l.addr, .arr (vs ++ ((List.range len).drop vs.length).map fun k => mapArgVal (app.param (first + k)).kind (s (first + k)))⟩
+
+/-- Text stage of the unchanged library (known finding C12-K9): a float holding +infinity is printed
+    `inf (inf)`, which the scanner reads as the keyword of the 'I' argument followed by garbage: such a line does
+    not scan back.  -/
+def scansBack (l : Line) : Bool :=
+  let vs := match l.args with | .plain vs => vs | .arr vs => vs
+  vs.all fun v => match v with | .flt b => b != 0x7f800000 | _ => true
+
 def showLine (l : Line) : String :=
   String.ofList l.addr ++ ":" ++
   match l.args with
   | .plain vs => ";".intercalate (vs.map showVal)
   | .arr vs => "[" ++ ";".intercalate (vs.map showVal) ++ "]"
 
-def showLines (app : App) (ls : List Line) : String := joinOr (sortStrs (ls.map fun l => showLine (normLine app l))) ","
+def showLines (app : App) (s : State) (ls : List Line) : String :=
+  joinOr (sortStrs (ls.map fun l => showLine (padLine app s (normLine app l)))) ","
 
 def showRes : LoadRes → String
   | .ok _ n => s!"R {n}"
@@ -242,24 +264,34 @@ def step (line : String) : String :=
     | some app, some h =>
       let s := app.run h app.init
       let ver : Nat × Nat × Nat := (0, 0, 0)
-      let file := app.saveFile ver (1, 2, 3) s
-      let lines := app.save s
+      let lines0 := app.save s
+      -- what the scanner gets back from the text: the lines in front of the first one that does not scan
+      let lines := lines0.takeWhile scansBack
+      let allScan := lines.length == lines0.length
+      let file0 := app.saveFile ver (1, 2, 3) s
+      let fileT : File := { file0 with body := lines0.map fun l => if scansBack l then some l else none }
+      let file : File := { file0 with body := lines.map some }
       if mode = "txt" then "TXT -" else
+      if mode = "meta" then
+        match splitC desc '|' with
+        | [_, _, _, ts] => "M " ++ ts
+        | _ => "bad-op"
+      else
       if mode = "sl" then
-        let r := app.loadFile file app.init
-        s!"O {showFields app s} S {showLines app lines} H 1 {showResF app r}"
+        let r := app.loadFile fileT app.init
+        s!"O {showFields app s} S {showLines app s lines} H {if allScan then 1 else 0} {showResF app r}"
       else if mode = "bad" then
         let n := lines.length
         let f : Option File :=
-          if x1 = "magic" then some { file with magic := false }
+          if x1 = "magic" || x1 = "tok" then some { fileT with magic := false }
           else if x1 = "rver" then
             match (splitC x2 '.').map String.toNat? with
-            | [some a, some b, some c] => some { file with rtoscVer := (a, b, c) }
+            | [some a, some b, some c] => some { fileT with rtoscVer := (a, b, c) }
             | _ => none
-          else if x1 = "app" then some { file with appName := x2.toList }
+          else if x1 = "app" then some { fileT with appName := x2.toList }
           else if x1 = "aver" then
             match (splitC x2 '.').map String.toNat? with
-            | [some a, some b, some c] => some { file with appVer := (a, b, c) }
+            | [some a, some b, some c] => some { fileT with appVer := (a, b, c) }
             | _ => none
           else if x1 = "parse" then
             x2.toNat?.map fun k =>
@@ -295,7 +327,7 @@ def step (line : String) : String :=
         let cnt := match bad with
           | none => perms.length
           | some p => perms.idxOf p + 1
-        s!"N {n} P {cnt} O {showFields app s} {showResF app r0} {tail}"
+        s!"N {n} P {cnt} {showResF app r0} {tail}"
       else "bad-op"
     | _, _ => "bad-op"
   | _ => "bad-op"
